@@ -31,6 +31,7 @@ _ext("niltype", "Nil", T(M.NilV, "NilType"))
 _ext("niltype", "Nilable", Builtin("typing_any"))
 _ext("typing", "cast", Builtin("cast"))
 _ext("copy", "deepcopy", Builtin("deepcopy"))
+_ext("copy", "copy", Builtin("copy"))
 _ext("math", "isclose", Builtin("isclose"))
 _ext("math", "isfinite", Builtin("isfinite"))
 _ext("math", "isnan", Builtin("isnan"))
@@ -233,7 +234,9 @@ class Exec:
         n = z3.If(hi >= lo, hi - lo, 0)
         st.assume(M.is_Ref(l1), M.rcls(l1) == M.rcls(a), M.llen(l1) == n,
                   z3.ForAll([j], z3.Implies(z3.And(0 <= j, j < n), M.lat(l1, j) == M.lat(a, lo + j)),
-                            patterns=[M.lat(l1, j)]))
+                            patterns=[M.lat(l1, j)]),
+                  z3.ForAll([j], z3.Implies(z3.And(lo <= j, j < lo + n), M.lat(a, j) == M.lat(l1, j - lo)),
+                            patterns=[M.lat(a, j)]))
         return l1
 
     def alloc_path(self, st: State, content: Any) -> T:
@@ -262,6 +265,9 @@ class Exec:
                         if isinstance(a, (Fn, Builtin, Lam, Mod)):
                             continue
                         st.assume(M.attr(k)(c.ident) == self.term(a, st))
+                    hook = getattr(self.contracts, "schema_freeze_hook", None)
+                    if hook is not None and c.cls in self.repo.classes and self.repo.is_subclass(c.cls, "Schema"):
+                        hook(self, st, c.cls, c.ident)
                 return c.ident
         if isinstance(v, Tup):
             return self.list_term(st, v.items, "tuple")
@@ -401,7 +407,18 @@ class Exec:
         return [(st, self.const(node.value))]
 
     def ev_Name(self, node: ast.Name, st: State):
-        return [(st, self.lookup(node.id, st))]
+        v = self.lookup(node.id, st)
+        if isinstance(v, tuple) and v and v[0] == "singleton":
+            _, mi, expr = v
+            saved = st.env
+            st.env = {"__module__": mi.name}
+            res = self.ev(expr, st)
+            for s2, _ in res:
+                s2.env = saved
+            self.used_assumptions.add("module-level visitor singletons are rebuilt from their constructor "
+                                      "expression (stateless objects)")
+            return res
+        return [(st, v)]
 
     def lookup(self, name: str, st: State) -> Any:
         if name in st.env:
@@ -444,7 +461,9 @@ class Exec:
         raise Unsupported(f"unresolved name {name} in {mod}")
 
     def module_singleton(self, mi: Any, name: str, expr: ast.expr) -> Any:
-        raise Unsupported(f"module-level value {mi.name}.{name}")
+        """`_validator = Validator()`-style module singletons: the visitors are stateless (C07 proves no
+        visit method writes to self), so the object is rebuilt from its constructor expression."""
+        return ("singleton", mi, expr)
 
     def ev_NamedExpr(self, node: ast.NamedExpr, st: State):
         out = []
@@ -584,7 +603,10 @@ class Exec:
         z = self.term(v, st)
         self.used_assumptions.add("repr/str of an object is a total function of the object (never raises)")
         if conv == "s":
-            return z3.If(M.is_StrV(z), M.sval(z), M.str_s(z))
+            zs = z3.simplify(z)
+            if z3.is_app(zs) and zs.decl().name() == "StrV":
+                return zs.arg(0)
+            return M.str_s(z)       # axiom: str_s(x) == sval(x) for a str x
         return M.repr_s(z)
 
     def ev_Attribute(self, node: ast.Attribute, st: State):
@@ -632,6 +654,9 @@ class Exec:
             h = v.hint or self.hint_of(v, st)
             if name == "__class__" and h:
                 return [(st, Cls(h))]
+            if name == "format" and h in (None, "ValidationError"):
+                # polymorphic ValidationError.format(formatter): abstract contract ErrorFormat
+                return [(st, Builtin("errformat", v))]
             if name == "__accept__" and h in (None, "Schema", "GenericSchema"):
                 # polymorphic call on a member whose class is not statically known: Accept[V]
                 return [(st, Builtin("accept", v))]
@@ -1024,6 +1049,8 @@ class Exec:
 
     def do_slice(self, v: Any, lo: Any, hi: Any, st: State) -> List[Tuple[State, Any]]:
         h = self.hint_of(v, st)
+        if h is None and isinstance(v, T):
+            h = self.refine_hint(v, st, ("list", "str", "tuple"))
         if isinstance(v, Tup):
             l = self.conc_int(lo, st) if lo is not None else None
             u = self.conc_int(hi, st) if hi is not None else None
@@ -1074,10 +1101,15 @@ class Exec:
                     out.append((s, Raised("TypeError", None, "list indices must be integers")))
                     continue
                 n = M.llen(z)
-                i = self.norm_index(M.int_of(zi), n)
+                i = z3.simplify(self.norm_index(M.int_of(zi), n))
                 for s2, inr in self.branch(s, z3.And(0 <= i, i < n), "IndexError", "list index"):
                     if inr:
-                        out.append((s2, T(M.lat(z, i), None)))
+                        el = M.lat(z, i)
+                        if not (z3.is_int_value(i) or (z3.is_app(i) and i.num_args() == 0)):
+                            nm = M.fresh("item")      # keep ite / arithmetic out of quantifier patterns
+                            s2.assume(nm == el)
+                            el = nm
+                        out.append((s2, T(el, None)))
                     else:
                         out.append((s2, Raised("IndexError", None, "list index out of range")))
             return out
@@ -1120,6 +1152,9 @@ class Exec:
     # ================================================================== calls
     def ev_Call(self, node: ast.Call, st: State):
         out = []
+        if isinstance(node.func, ast.Name) and node.func.id == "cast" and len(node.args) == 2 \
+                and "cast" not in st.env:
+            return self.ev(node.args[1], st)      # typing.cast(T, x) is the identity; T is not evaluated
         for s, f in self.ev(node.func, st):
             if isinstance(f, Raised):
                 out.append((s, f))
@@ -1162,6 +1197,8 @@ class Exec:
              node: Any = None) -> List[Tuple[State, Any]]:
         if isinstance(f, Fn):
             return self.call_fn(f, pos, kws, kwrest, st, node)
+        if isinstance(f, Builtin) and f.name == "errformat":
+            return self.contracts.apply_abstract(self, "ErrorFormat", {"error": f.bound, "formatter": pos[0]}, st)
         if isinstance(f, Builtin) and f.name == "accept":
             return self.contracts.apply_accept(self, f.bound, pos, kws, kwrest, st)
         if isinstance(f, Builtin):
@@ -1340,7 +1377,12 @@ class Exec:
     def ex_Return(self, stmt: ast.Return, st: State):
         if stmt.value is None:
             return [(st, Ret(self.const(None)))]
-        return [(s, v if isinstance(v, Raised) else Ret(v)) for s, v in self.ev(stmt.value, st)]
+        outs = []
+        for s, v in self.ev(stmt.value, st):
+            if self.call_depth == 0:
+                s.notes = s.notes + (f"L{stmt.lineno}",)
+            outs.append((s, v if isinstance(v, Raised) else Ret(v)))
+        return outs
 
     def ex_Break(self, stmt, st):
         return [(st, Brk())]
@@ -1483,8 +1525,10 @@ class Exec:
                 m.cells[cid_] = ObjC(ca.cls, tuple(attrs), ca.ident, ca.frozen)
                 continue
             return None
-        m.ph = a.ph if (a.ph is b.ph or z3.eq(a.ph, b.ph)) else named(z3.If(c, a.ph, b.ph))
-        m.alloc = a.alloc if (a.alloc is b.alloc or z3.eq(a.alloc, b.alloc)) else z3.If(c, a.alloc, b.alloc)
+        if not (a.ph is b.ph or z3.eq(a.ph, b.ph)) or not (a.alloc is b.alloc or z3.eq(a.alloc, b.alloc)):
+            return None      # different PathHolder heaps: keep the paths apart (cheaper heap reasoning)
+        m.ph = a.ph
+        m.alloc = a.alloc
         m.pc += defs
         return m
 
